@@ -125,9 +125,10 @@ def body_for(beh: Dict[str, Any], req: Optional[Dict[str, Any]]) -> Tuple[bytes,
         msgs = [resp]
     elif kind == "error":
         msgs = [err]
-    elif kind in ("response_list", "response_str", "response_zero", "response_emptyobj"):
+    elif kind in ("response_list", "response_str", "response_zero", "response_emptyobj", "response_null", "response_false"):
         # results that are not (non-empty) objects: the same envelope shape with another value type
-        val = {"response_list": [TEXT, None, 1], "response_str": TEXT, "response_zero": 0, "response_emptyobj": {}}[kind]
+        val = {"response_list": [TEXT, None, 1], "response_str": TEXT, "response_zero": 0, "response_emptyobj": {}, "response_null": None,
+               "response_false": False}[kind]
         msgs = [{"jsonrpc": "2.0", "id": rid, "result": val}]
     elif kind in ("error_nullid", "error_foreignid", "error_noid", "error_plain_object"):
         # what servers put in the body of an error status: a JSON-RPC error object without the request's id
@@ -220,7 +221,8 @@ def single_behaviours() -> List[Dict[str, Any]]:
         for body in ("error_nullid", "error_foreignid", "error_noid", "error_plain_object"):
             for ct in ("json", "other", None):
                 out.append({"status": status, "ctype": ct, "body": body})
-    for body in ("response_list", "response_str", "response_zero", "response_emptyobj", "notes_then_response_list"):
+    for body in ("response_list", "response_str", "response_zero", "response_emptyobj", "notes_then_response_list", "response_null",
+                 "response_false"):
         out.append({"status": 200, "ctype": "json", "body": body})
         out.append({"status": 200, "ctype": "sse", "body": body})
     for n in (99, 100, 101, 150, 400):
